@@ -411,7 +411,14 @@ func printEvent(w io.Writer, color, symbol, verb string, events int) {
 }
 
 func standaloneOccurrenceFMT(s string, i int) string {
-	return fmt.Sprintf(s, i)
+	// only the `_%d` placeholder appended by constructFilename is substituted, the
+	// rest of the path (test name, Filename, Dir) is kept verbatim as it can contain `%`
+	idx := strings.LastIndex(s, "_%d")
+	if idx == -1 {
+		return s
+	}
+
+	return s[:idx+1] + strconv.Itoa(i) + s[idx+3:]
 }
 
 func snapshotOccurrenceFMT(s string, i int) string {
